@@ -2834,16 +2834,23 @@ class Env(cabc.MutableMapping):
         # (validation/conversion error) the ones already set are put back.
         try:
             # single positional argument should be a dict-like object
+            def capture(k):
+                if k not in old:
+                    old[k] = self._capture_for_swap(k, local)
+                # setting a variable also sets its ``sync`` partner (the
+                # deprecated/new name of the same setting): restore that too
+                sync = self._vars[k].sync if k in self._vars else ""
+                if sync and sync not in old:
+                    old[sync] = self._capture_for_swap(sync, local)
+
             if other is not None:
                 for k, v in other.items():
-                    if k not in old:
-                        old[k] = self._capture_for_swap(k, local)
+                    capture(k)
                     self._set_item(k, v, thread_local=True)
             # kwargs could also have been sent in (a key given both ways is
             # restored to what it was before the swap, not to ``other[k]``)
             for k, v in kwargs.items():
-                if k not in old:
-                    old[k] = self._capture_for_swap(k, local)
+                capture(k)
                 self._set_item(k, v, thread_local=True)
 
             if overlay is not None:
